@@ -4,4 +4,4 @@ CONSTANTS Clients = {"c1", "c2"}
   Progs <- Progs2
   MaxTime = 2
   WithFix = TRUE
-INVARIANTS AtMostOnce ExactlyOnceAtClose RunOnlyOnSchedThread NeverEarly ThreadGoneAtClose NoLeak MutexSane
+INVARIANTS AtMostOnce ExactlyOnceAtClose RunOnlyOnSchedThread NeverEarly ThreadGoneAtClose NoLeak MutexSane NoSleepThroughExit
